@@ -534,12 +534,13 @@ Section LsPred.
 Variable nn : list F -> list F -> nat -> nat -> res (F * list F).
 Variables signal response : list F.
 Variable P : list F -> Prop.
-Hypothesis nn_P : forall off la r inp, nn signal response off la = Ok (r, inp) -> P inp.
+(* only sweeps whose residual compares < some earlier best value can be selected *)
+Hypothesis nn_P : forall off la r inp b, nn signal response off la = Ok (r, inp) -> ltb r b = true -> P inp.
 
 Lemma ls_step_P best off la b : P (snd best) -> ls_step nn signal response best off la = Ok b -> P (snd b).
 Proof.
   intros Hb H. apply ls_step_ok in H. destruct H as [r [inp [Hn ->]]].
-  destruct (ltb r (fst best)); [cbn [snd]; eapply nn_P; eassumption | assumption].
+  destruct (ltb r (fst best)) eqn:E; [cbn [snd]; eapply nn_P; eassumption | assumption].
 Qed.
 Lemma ls_inner_P : forall las best off b, P (snd best) -> ls_inner nn signal response best off las = Ok b -> P (snd b).
 Proof.
@@ -629,9 +630,91 @@ Theorem ls_deconv_nonneg_sec signal response offs las out :
   ls_deconv nn_greedy signal response offs las = Ok out -> Forall ge0 out.
 Proof.
   apply (ls_deconv_P nn_greedy signal response (Forall ge0)); [|constructor].
-  intros off la r inp. apply nn_greedy_nonneg_sec.
+  intros off la r inp b Hn _. eapply nn_greedy_nonneg_sec; eassumption.
 Qed.
 End Sign.
+
+(* ========== (4b) finiteness of a selected result ========== *)
+Section Finite.
+Variable fin : F -> Prop.
+Hypothesis fin_zero : fin zero.
+Hypothesis sub_fin : forall s p, fin (sub s p) -> fin p.       (* a non-finite subtrahend gives a non-finite difference *)
+Hypothesis mul_fin : forall v r, fin (mul v r) -> fin v.       (* a non-finite factor gives a non-finite product *)
+(* a residual sum of squares that compares < +inf has only finite terms *)
+Hypothesis sumsq_fin : forall l, ltb (sumsq l) inf = true -> Forall fin l.
+Hypothesis ltb_inf : forall r b, ltb r b = true -> ltb r inf = true.
+
+Notation R := (fun v x => fin x -> fin v).
+
+Lemma Forall2_R_fin : forall ai ar, Forall2 R ai ar -> Forall fin ar -> Forall fin ai.
+Proof.
+  induction 1 as [|v x ai ar Hvx H IH]; intros Har; [constructor|].
+  inversion Har; subst. constructor; auto.
+Qed.
+Lemma advance_R : forall k rest ai ar r' ai' ar',
+  advance k rest ai ar = (r', ai', ar') -> Forall2 R ai ar -> Forall2 R ai' ar'.
+Proof.
+  induction k as [|k IH]; intros rest ai ar r' ai' ar'; cbn [Greedy.advance].
+  - intros [= _ <- <-]. auto.
+  - destruct rest as [|x t]; [intros [= _ <- <-]; auto|].
+    intros H Ha. apply (IH _ _ _ _ _ _ H). constructor; [intros _; exact fin_zero | assumption].
+Qed.
+Lemma zip_div_nil_r w : zip_div w [] = [].
+Proof. destruct w; reflexivity. Qed.
+(* the amplitude written at i is finite if the residual left at i is *)
+Lemma fire_R response rwin win rest val x t :
+  rwin = [] \/ response <> [] ->
+  fire response rwin win rest = Ok (val, x :: t) -> fin x -> fin val.
+Proof.
+  intros Hresp. unfold Greedy.fire.
+  destruct (reduce_min (zip_div win rwin)) as [v|] eqn:Ev; cbn [unwrap bind]; [|discriminate].
+  intros [= <- Hs] Hx.
+  destruct Hresp as [->|Hresp]; [rewrite zip_div_nil_r in Ev; discriminate|].
+  destruct response as [|r0 rt]; [congruence|].
+  destruct rest as [|s st]; [discriminate|]. cbn [Greedy.sub_scaled] in Hs. injection Hs as Hs _. subst x.
+  eapply mul_fin. eapply sub_fin. exact Hx.
+Qed.
+
+Lemma greedy_loop_fin response rwin off la : rwin = [] \/ response <> [] ->
+  forall fuel rest ai ar residual input,
+  Forall2 R ai ar ->
+  greedy_loop response rwin off la fuel rest ai ar = Ok (residual, input) ->
+  Forall fin residual -> Forall fin input.
+Proof.
+  intros Hresp. induction fuel as [|f IH]; intros rest ai ar residual input HR; cbn [Greedy.greedy_loop]; [discriminate|].
+  destruct (slice rest off la) as [win|] eqn:Hs.
+  - destruct (last_nonneg win) as [lp|] eqn:El.
+    + destruct (advance (S lp) rest ai ar) as [[r' ai'] ar'] eqn:Hadv.
+      apply IH. eapply advance_R; eassumption.
+    + destruct (fire response rwin win rest) as [[val rest']| |] eqn:Ef; cbn [bind]; try discriminate.
+      destruct rest' as [|x t]; [discriminate|].
+      apply IH. constructor; [|assumption]. eapply fire_R; eassumption.
+  - intros [= <- <-] Hres. apply Forall_app in Hres. destruct Hres as [Har _].
+    apply Forall_rev in Har. rewrite rev_involutive in Har.
+    apply Forall_app. split.
+    + apply Forall_rev. eapply Forall2_R_fin; eassumption.
+    + clear -fin_zero. induction (length rest); cbn; constructor; assumption.
+Qed.
+
+Theorem nn_greedy_finite_sec signal response off la r inp :
+  nn_greedy signal response off la = Ok (r, inp) -> ltb r inf = true -> Forall fin inp.
+Proof.
+  unfold Greedy.nn_greedy, Greedy.nn_with.
+  destruct (slice response off la) as [rwin|] eqn:Hs; cbn [unwrap bind]; [|discriminate].
+  unfold assert_. destruct (forallb neg rwin); [|discriminate].
+  destruct (greedy_loop response rwin off la (S (length signal)) signal [] []) as [[residual input]| |] eqn:E;
+    cbn [bind]; try discriminate.
+  intros [= <- <-] Hlt. eapply greedy_loop_fin; [|constructor|exact E|apply sumsq_fin; exact Hlt].
+  apply slice_some_iff in Hs. destruct Hs as [_ ->].
+  destruct response as [|r0 rt]; [left; rewrite skipn_nil, firstn_nil; reflexivity | right; discriminate].
+Qed.
+Theorem ls_deconv_finite_sec signal response offs las out :
+  ls_deconv nn_greedy signal response offs las = Ok out -> Forall fin out.
+Proof.
+  apply (ls_deconv_P nn_greedy signal response (Forall fin)); [|constructor].
+  intros off la r inp b Hn Hlt. eapply nn_greedy_finite_sec; [exact Hn|]. eapply ltb_inf; exact Hlt.
+Qed.
+End Finite.
 
 (* ========== (5) covariance under an exact scaling of the samples ========== *)
 Section Scale.
@@ -1258,4 +1341,100 @@ Proof.
   - exact f_ge0_zero.
   - exact f_ge0_quot.
   - exact f_ge0_min.
+Qed.
+
+(* ---- binary64: the laws of Section Finite ---- *)
+(* accumulator of a sum of squares started at -0: NaN, a zero, or sign bit clear *)
+Definition sf_acc (x : spec_float) : Prop :=
+  match x with S754_nan | S754_zero _ => True | S754_infinity s | S754_finite s _ _ => s = false end.
+
+Lemma sf_ge0_acc x : sf_ge0 x -> sf_acc x.
+Proof. destruct x; cbn; auto. Qed.
+Lemma SFsub_fin prec emax a p : sf_fin (SFsub prec emax a p) -> sf_fin p.
+Proof.
+  destruct a as [sa|sa| |sa ma ea], p as [sp|sp| |sp mp ep]; cbn [SFsub sf_fin]; auto.
+  destruct (Bool.eqb sa (negb sp)); cbn [sf_fin]; auto.
+Qed.
+Lemma SFmul_fin prec emax v r : sf_fin (SFmul prec emax v r) -> sf_fin v /\ sf_fin r.
+Proof. destruct v as [sa|sa| |sa ma ea], r as [sp|sp| |sp mp ep]; cbn [SFmul sf_fin]; auto; intros []. Qed.
+Lemma SFadd_fin prec emax a q : sf_fin (SFadd prec emax a q) -> sf_fin a /\ sf_fin q.
+Proof.
+  destruct a as [sa|sa| |sa ma ea], q as [sp|sp| |sp mp ep]; cbn [SFadd sf_fin]; auto; try (intros []).
+  destruct (Bool.eqb sa sp); cbn [sf_fin]; intros [].
+Qed.
+Lemma SFmul_sq_ge0 prec emax x : sf_ge0 (SFmul prec emax x x).
+Proof.
+  destruct x as [s|s| |s m e]; cbn [SFmul sf_ge0]; rewrite ?xorb_nilpotent; try reflexivity; try exact I.
+  apply binary_round_aux_sign.
+Qed.
+Lemma SFadd_acc prec emax a q : sf_acc a -> sf_ge0 q -> sf_acc (SFadd prec emax a q).
+Proof.
+  destruct a as [sa|sa| |sa ma ea], q as [sq|sq| |sq mq eq_]; cbn [SFadd sf_acc sf_ge0]; intros Ha Hq; subst; auto;
+    try (match goal with |- context [Bool.eqb ?a ?b] => destruct (Bool.eqb a b) end; cbn [sf_acc]; auto; fail).
+  cbn [cond_Zopp]. rewrite <- Pos2Z.inj_add. cbn [binary_normalize]. unfold binary_round.
+    match goal with |- context [shl_align ?a ?b ?c] => destruct (shl_align a b c) as [mz ez] end.
+  apply sf_ge0_acc. apply binary_round_aux_sign.
+Qed.
+
+Definition sq_step (acc x : float) : float := (acc + x * x)%float.
+Lemma sumsq_inv : forall l acc, sf_acc (Prim2SF acc) ->
+  sf_acc (Prim2SF (fold_left sq_step l acc)) /\
+  (f_fin (fold_left sq_step l acc) -> f_fin acc /\ Forall f_fin l).
+Proof.
+  induction l as [|x t IH]; intros acc Ha; cbn [fold_left].
+  - split; [assumption|]. intros H. split; [assumption|constructor].
+  - assert (Ha' : sf_acc (Prim2SF (sq_step acc x))).
+    { unfold sq_step. rewrite FloatAxioms.add_spec, FloatAxioms.mul_spec. apply SFadd_acc; [assumption|apply SFmul_sq_ge0]. }
+    destruct (IH _ Ha') as [H1 H2]. split; [assumption|].
+    intros Hf. destruct (H2 Hf) as [Hacc' Ht].
+    unfold f_fin, sq_step in Hacc'. rewrite FloatAxioms.add_spec, FloatAxioms.mul_spec in Hacc'.
+    apply SFadd_fin in Hacc'. destruct Hacc' as [Hacc Hsq]. apply SFmul_fin in Hsq.
+    split; [exact Hacc|]. constructor; [exact (proj1 Hsq)|exact Ht].
+Qed.
+Lemma f_sumsq_fin l :
+  (sumsq float neg_zero PrimFloat.add PrimFloat.mul l <? infinity)%float = true -> Forall f_fin l.
+Proof.
+  unfold sumsq. change (fun acc x : float => (acc + x * x)%float) with sq_step.
+  destruct (sumsq_inv l neg_zero I) as [Hacc Hfin]. intros Hlt. apply Hfin.
+  unfold f_fin. rewrite FloatAxioms.ltb_spec in Hlt. change (Prim2SF infinity) with (S754_infinity false) in Hlt.
+  unfold SFltb in Hlt. destruct (Prim2SF (fold_left sq_step l neg_zero)) as [s|s| |s m e]; cbn [sf_fin]; auto;
+    cbn [SFcompare] in Hlt; try discriminate.
+  cbn [sf_acc] in Hacc. subst s. discriminate.
+Qed.
+Lemma f_ltb_inf r b : (r <? b)%float = true -> (r <? infinity)%float = true.
+Proof.
+  rewrite !FloatAxioms.ltb_spec. change (Prim2SF infinity) with (S754_infinity false). unfold SFltb.
+  destruct (Prim2SF r) as [s|s| |s m e]; cbn [SFcompare]; try reflexivity; try discriminate.
+  - destruct s; [reflexivity|]. destruct (Prim2SF b) as [s2|s2| |s2 m2 e2]; cbn; try discriminate. destruct s2; discriminate.
+Qed.
+Lemma f_sub_fin s p : f_fin (s - p)%float -> f_fin p.
+Proof. unfold f_fin. rewrite FloatAxioms.sub_spec. apply SFsub_fin. Qed.
+Lemma f_mul_fin v r : f_fin (v * r)%float -> f_fin v.
+Proof. unfold f_fin. rewrite FloatAxioms.mul_spec. intros H. apply SFmul_fin in H. exact (proj1 H). Qed.
+
+Lemma ls_finite_f64_lemma : forall signal response offs las out,
+  ls_deconv_f signal response offs las = Ok out -> Forall f_fin out.
+Proof.
+  intros signal response offs las out. unfold ls_deconv_f, nn_greedy_f.
+  apply ls_deconv_finite_sec with (fin := f_fin).
+  - reflexivity.
+  - exact f_sub_fin.
+  - exact f_mul_fin.
+  - exact f_sumsq_fin.
+  - exact f_ltb_inf.
+Qed.
+(* everything the binary64 model guarantees for ALL inputs, in one statement *)
+Lemma deconv_f64_all_inputs_lemma : forall signal response offs las out,
+  ls_deconv_f signal response offs las = Ok out ->
+  (out = [] \/ length out = length signal) /\ Forall f_fin out /\ Forall f_ge0 out.
+Proof.
+  intros signal response offs las out H. split; [|split].
+  - revert H. unfold ls_deconv_f.
+    apply (ls_deconv_P float infinity PrimFloat.ltb nn_greedy_f signal response
+             (fun l => l = [] \/ length l = length signal)); [|left; reflexivity].
+    intros off la r inp b Hn _. right. unfold nn_greedy_f in Hn.
+    destruct (deconv_lengths_lemma float 0%float neg_zero PrimFloat.add PrimFloat.sub PrimFloat.mul PrimFloat.div
+                f_min f_neg f_nonneg signal response off la) as [_ [Hl _]]. eapply Hl. exact Hn.
+  - eapply ls_finite_f64_lemma; exact H.
+  - eapply ls_nonneg_f64_lemma; exact H.
 Qed.
